@@ -123,14 +123,16 @@ fn starts() -> Vec<Spec> {
 
 fn sequences_with(len: usize, reduced: bool) -> R {
     let st = starts();
-    let s = &st[choice(st.len())];
+    // length-3 sequences in the quick tier start from the 7 node-shaped envelopes (the others are covered at length 2)
+    let s = if reduced && len == 3 && !rt::thorough() { &st[[4usize, 5, 6, 7, 8, 9, 12][choice(7)]] } else { &st[choice(st.len())] };
     let mut e = build(s);
     if let Err(m) = well_formed(&e) { return rt::viol("freshly built envelope not canonical", m); }
     let mut trace = vec![s.show()];
     // structural operations that re-sort / merge / collapse; the others are exercised at length 2
     let core: [usize; 14] = [0, 1, 2, 4, 5, 6, 7, 9, 14, 16, 23, 24, 26, 28];
     for step in 0..len {
-        let k = if reduced { core[choice(core.len())] } else { choice(N_OPS) };
+        let quick_core: [usize; 10] = [0, 2, 4, 5, 6, 7, 9, 14, 16, 24];
+        let k = if reduced && !rt::thorough() { quick_core[choice(quick_core.len())] } else if reduced { core[choice(core.len())] } else { choice(N_OPS) };
         let before = bytes(&e);
         let recv = e.clone();
         let r = apply(k, &e, step as u32)?;
@@ -447,7 +449,7 @@ pub fn prop_c04() -> Prop {
                 bounds: "13 start envelopes (leaf, known value, assertion, wrapped, nodes with 1-3 assertions, decorated assertion, wrapped node subject, elided / compressed / encrypted children, assertion subject) x every sequence of 2 operations out of 30 (replace_assertion with an invalid / already present replacement, replace_subject by the envelope itself / by a node sharing an assertion, add, add duplicate, add an elided/compressed copy of a present assertion, add the clear copy of an elided assertion, remove present/absent, replace assertion, replace subject by leaf / by node, wrap, unwrap, elide removing / revealing, compress(_subject), uncompress(_subject), encrypt_subject, decrypt_subject, add_salt_instance, add_assertion_salted, add_signature, add_recipient, add_type, add_attachment, encode->decode) with every argument choice x every digest order; after each step: structure well-formed, stored digests == recomputed, serialized bytes accepted by an independent grammar recogniser, assertion elements strictly ascending under the path condition, receiver unchanged",
                 api: &["add_assertion", "add_assertion_envelope", "remove_assertion", "replace_assertion", "replace_subject", "wrap_envelope", "unwrap_envelope", "elide_removing_target", "elide_revealing_array", "compress", "compress_subject", "uncompress", "uncompress_subject", "encrypt_subject", "decrypt_subject", "add_salt_instance", "add_assertion_salted", "add_signature", "add_recipient", "add_type", "add_attachment", "try_from_cbor_data", "tagged_cbor"] },
             Scenario { name: "sequences3", f: seq3, thorough_only: false,
-                bounds: "same starts x every sequence of 3 operations out of the 14 structural ones (replace with a present twin, replace_subject by a node sharing an assertion, add, add duplicate, add obscured/clear copy of a present assertion, remove, replace assertion, replace subject by leaf / node, wrap, elide, uncompress_subject, decrypt_subject) x every digest order",
+                bounds: "7 node-shaped starts (quick) / all 13 (thorough) x every sequence of 3 operations out of 10 structural ones (quick) / 14 (thorough) (replace with a present twin, replace_subject by a node sharing an assertion, add, add duplicate, add obscured/clear copy of a present assertion, remove, replace assertion, replace subject by leaf / node, wrap, elide, uncompress_subject, decrypt_subject) x every digest order",
                 api: &["add_assertion", "add_assertion_envelope", "remove_assertion", "replace_assertion", "replace_subject", "wrap_envelope", "elide_removing_target", "uncompress_subject", "decrypt_subject"] },
             Scenario { name: "sequences3_full", f: seq3_full, thorough_only: true, bounds: "every sequence of 3 operations out of all 30", api: &["(all of sequences2)"] },
             Scenario { name: "sequences4", f: seq4, thorough_only: true, bounds: "every sequence of 4 operations out of the 14 structural ones", api: &["(all of sequences3)"] },
